@@ -44,6 +44,46 @@ def known_fingerprints() -> Dict[str, dict]:
         return {}
 
 
+def digest(fn: ast.AST) -> str:
+    """hash of a function's syntax tree as written (docstring dropped): equal iff the code is the same token for token"""
+    import copy, hashlib
+    f2 = copy.deepcopy(fn)
+    if f2.body and isinstance(f2.body[0], ast.Expr) and isinstance(f2.body[0].value, ast.Constant) and isinstance(f2.body[0].value.value, str):
+        f2.body = f2.body[1:] or [ast.Pass()]
+    return hashlib.sha1(ast.dump(f2, annotate_fields=False, include_attributes=False).encode()).hexdigest()[:16]
+
+
+def known_digests() -> Dict[str, List[str]]:
+    p = os.path.join(_HERE, "known_functions.json")
+    try:
+        with open(p) as fh:
+            return json.load(fh).get("digests", {})
+    except (OSError, ValueError):
+        return {}
+
+
+def changed_functions(trees: Dict[str, ast.Module]) -> Set[str]:
+    """functions (module:qualname) of the tree being analysed that are not, token for token, functions of the reference
+    tree - edited, new or removed.  Empty on the reference tree itself."""
+    ref = known_digests()
+    if not ref:
+        return set()
+    cur: Dict[str, List[str]] = {}
+    for mod, tree in trees.items():
+        for st in tree.body:
+            if isinstance(st, (ast.FunctionDef, ast.AsyncFunctionDef)):
+                cur.setdefault("%s:%s" % (mod, st.name), []).append(digest(st))
+            elif isinstance(st, ast.ClassDef):
+                for s2 in st.body:
+                    if isinstance(s2, (ast.FunctionDef, ast.AsyncFunctionDef)):
+                        cur.setdefault("%s:%s.%s" % (mod, st.name, s2.name), []).append(digest(s2))
+    out = set()
+    for k in set(ref) | set(cur):
+        if sorted(ref.get(k, [])) != sorted(cur.get(k, [])):
+            out.add(k)
+    return out
+
+
 def fingerprint(fn: ast.AST) -> dict:
     """what a function is made of, independent of its own name: parameter names and the identifiers it uses"""
     a = fn.args
@@ -412,6 +452,24 @@ class ModuleInliner:
         return None
 
     # ------------------------------------------------------------------ splice
+    @staticmethod
+    def _dead_after(caller: ast.AST, call: ast.Call, name: str) -> bool:
+        pos = (getattr(call, "lineno", 0), getattr(call, "col_offset", 0))
+        pm: Dict[int, ast.AST] = {}
+        for x in ast.walk(caller):
+            for ch in ast.iter_child_nodes(x):
+                pm[id(ch)] = x
+        cur = call
+        while id(cur) in pm:
+            cur = pm[id(cur)]
+            if isinstance(cur, (ast.For, ast.While, ast.AsyncFor)):
+                return False
+        for x in ast.walk(caller):
+            if isinstance(x, ast.Name) and x.id == name and isinstance(x.ctx, ast.Load) \
+                    and (getattr(x, "lineno", 0), getattr(x, "col_offset", 0)) > pos and not any(x is y for y in ast.walk(call)):
+                return False
+        return True
+
     def splice(self, h: Helper, recv: Optional[ast.AST], call: ast.Call, caller: ast.FunctionDef, mode: str,
                res: Optional[str]) -> List[ast.stmt]:
         """mode: 'value' (result assigned to `res`), 'stmt' (value dropped), 'return' (returns kept)"""
@@ -454,6 +512,10 @@ class ModuleInliner:
         for p, a in bind.items():
             if p not in stored and _simple_arg(a):
                 mapping[p] = a
+            elif isinstance(a, ast.Name) and a.id == p and self._dead_after(caller, call, p):
+                # the caller hands over its own variable of the same name and never reads it again: the helper's
+                # rebinding of the parameter can use the caller's name (no copy, no renaming)
+                continue
             else:
                 nm = p if (p not in caller_names) else p + tag
                 if nm != p:
